@@ -50,6 +50,8 @@ Op_SumBatch(o, bd) == Op_Mk("SumBatch", <<o>>, <<>>, <<bd>>)
 Op_BatchRepeat(o, reps) == Op_Mk("BatchRepeat", <<o>>, <<>>, reps)
 Op_Cat(os, d) == Op_Mk("Cat", os, <<>>, <<d>>)                \* CatLinearOperator(*ops, dim)
 Op_Interp(o, li, lv, ri, rv) == Op_Mk("Interp", <<o>>, <<li, lv, ri, rv>>, <<>>)
+\* one-sided interpolation: InterpolatedLinearOperator(base, left_indices, left_values) - the right side is left at its default (identity)
+Op_InterpLeft(o, li, lv) == Op_Mk("InterpLeft", <<o>>, <<li, lv>>, <<>>)
 Op_Masked(o, rm, cm) == Op_Mk("Masked", <<o>>, <<rm, cm>>, <<>>)
 Op_Perm(p) == Op_Mk("Perm", <<>>, <<p>>, <<>>)                \* PermutationLinearOperator(perm)
 Op_TransPerm(m) == Op_Mk("TransPerm", <<>>, <<>>, <<m>>)      \* TransposePermutationLinearOperator(m)
@@ -154,6 +156,7 @@ Op_Denote(t) ==
        [] c = "SumBatch" -> T_SumDim(Op_BlockDimToM3(D(1), t.ks[1]), -3)
        [] c = "BatchRepeat" -> T_Repeat(D(1), t.ks \o <<1, 1>>)
        [] c = "Cat" -> T_Cat(Ds, t.ks[1])
+       [] c = "InterpLeft" -> LET K == D(1) IN T_MatMul(Op_InterpW(t.ts[1], t.ts[2], T_Last2(K.shape)), K)
        [] c = "Interp" ->
             LET K == D(1)
                 Wl == Op_InterpW(t.ts[1], t.ts[2], T_Last2(K.shape))
@@ -205,6 +208,7 @@ Op_Size(t) ==
             LET r == Len(Ss[1]) p == T_Dim(r, t.ks[1])
             IN [Ss[1] EXCEPT ![p] = T_SumSeq([i \in 1..Len(Ss) |-> Ss[i][p]])]
        [] c = "Interp" -> T_DropLast(T_DropLast(t.ts[1].shape)) \o <<T_Last2(t.ts[1].shape), T_Last2(t.ts[3].shape)>>
+       [] c = "InterpLeft" -> T_DropLast(T_DropLast(t.ts[1].shape)) \o <<T_Last2(t.ts[1].shape), T_Last(S(1))>>
        [] c = "Masked" -> T_Batch(S(1)) \o <<T_SumSeq(t.ts[1].data), T_SumSeq(t.ts[2].data)>>
        [] c = "Perm" -> sq(T_DropLast(t.ts[1].shape), T_Last(t.ts[1].shape))
        [] c = "TransPerm" -> <<t.ks[1] * t.ks[1], t.ks[1] * t.ks[1]>>
